@@ -158,18 +158,19 @@ mod imp {
             v.sort(); v
         }
         fn pick(&mut self, v: &[String]) -> String { v[self.rng.below(v.len() as u64) as usize].clone() }
-        fn good_stmt(&mut self, defined_here: &mut HashSet<String>) -> Option<Stmt> {
+        fn good_stmt(&mut self, defined_here: &mut HashSet<String>, assigned_here: &mut HashSet<String>) -> Option<Stmt> {
             let r = self.rng.below(100);
             let mv = self.int_vars(true); let iv = mv.clone(); let av = self.all_vars(); let fs = self.fns(true);
             if r < 14 {
                 // new or redefined variable
                 let name = if !av.is_empty() && self.rng.chance(1, 4) { self.pick(&av) } else { self.fresh("g") };
-                if defined_here.contains(&name) { return None; }
+                if defined_here.contains(&name) || assigned_here.contains(&name) { return None; }
                 defined_here.insert(name.clone());
                 let val = if self.rng.chance(1, 4) { Val::Str(self.fresh("s")) } else { Val::Int(self.rng.range_i64(-50, 50)) };
                 Some(Stmt::Let { name, mutable: self.rng.chance(2, 3), val })
             } else if r < 26 && !mv.is_empty() {
                 let name = self.pick(&mv);
+                assigned_here.insert(name.clone());
                 if self.rng.chance(1, 2) { Some(Stmt::SetLit { name, val: self.rng.range_i64(-50, 50) }) } else { Some(Stmt::AddTo { name, k: self.rng.range_i64(1, 9) }) }
             } else if r < 44 {
                 let name = if !fs.is_empty() && self.rng.chance(1, 3) { self.pick(&fs) } else { self.fresh("f") };
@@ -179,7 +180,7 @@ mod imp {
                 let k = self.rng.below(10);
                 let kind = if k < 3 || iv.is_empty() { FnKind::AddK(self.rng.range_i64(1, 20)) }
                     else if k < 6 { FnKind::ReadG(self.pick(&iv)) }
-                    else if k < 9 && !mv.is_empty() { FnKind::BumpG(self.pick(&mv)) }
+                    else if k < 8 && !mv.is_empty() { let gname = self.pick(&mv); assigned_here.insert(gname.clone()); FnKind::BumpG(gname) }
                     else { FnKind::Boom };
                 Some(Stmt::Def { name, def: FnDef { tag, kind } })
             } else if r < 62 && !av.is_empty() {
@@ -214,11 +215,12 @@ mod imp {
             }
             if r < 17 { return Step::Host { f: self.fresh("nosuch"), arg: 1, cached: self.rng.chance(1, 2) }; }
             let mut defined_here = HashSet::new();
+            let mut assigned_here = HashSet::new();
             let n = 1 + self.rng.below(4) as usize;
             let mut stmts = Vec::new();
             let snapshot = self.o.clone();
             for _ in 0..n {
-                if let Some(s) = self.good_stmt(&mut defined_here) {
+                if let Some(s) = self.good_stmt(&mut defined_here, &mut assigned_here) {
                     // keep the oracle's view current so that later statements of the input are valid
                     self.o.input(std::slice::from_ref(&s), Expect::Ok);
                     self.prune_dangling();
@@ -233,7 +235,7 @@ mod imp {
                 let bad = match k {
                     0 => Stmt::Raw { text: format!("println({})", self.fresh("undefined_name")) },
                     1 => Stmt::Raw { text: "let = 3".into() },
-                    _ => { let imm: Vec<String> = { let mut v: Vec<String> = self.o.vars.iter().filter(|(_, (_, m))| !*m).map(|(k, _)| k.clone()).collect(); v.sort(); v };
+                    _ => { let imm: Vec<String> = { let mut v: Vec<String> = self.o.vars.iter().filter(|(k, (_, m))| !*m && !defined_here.contains(*k)).map(|(k, _)| k.clone()).collect(); v.sort(); v };
                            if imm.is_empty() { Stmt::Raw { text: "println(1 +)".into() } } else { Stmt::Raw { text: format!("{} = 5", self.pick(&imm)) } } }
                 };
                 let pos = self.rng.below(stmts.len() as u64 + 1) as usize;
@@ -321,7 +323,7 @@ mod imp {
     }
 
     pub struct CaseOut { pub query: String, pub observed: String, pub real_steps: String, pub oracle_steps: String, pub source: String,
-                         pub problems: Vec<String>, pub kinds: String }
+                         pub problems: Vec<String>, pub kinds: String, pub stale_entry: bool }
 
     pub fn run_case(seed: u64, opt: u32) -> CaseOut {
         let mut g = Gen::new(seed);
@@ -333,6 +335,7 @@ mod imp {
         let (mut q_steps, mut obs_steps, mut real_steps, mut oracle_steps, mut srcs): (Vec<String>, Vec<String>, Vec<String>, Vec<String>, Vec<String>) = (vec![], vec![], vec![], vec![], vec![]);
         let nsteps = 5 + g.rng.below(10) as usize;
         let mut kinds: HashMap<&'static str, usize> = HashMap::new();
+        let mut stale_entry = false;
         for k in 0..nsteps {
             let step = g.step(k == 0);
             let mut ops: Vec<String> = Vec::new();
@@ -354,7 +357,8 @@ mod imp {
                         if cands.len() == 1 {
                             let top = function_at(&vm, cands[0].0).unwrap();
                             let ltop = lay_of(&top);
-                            for n in &top.nested_functions { if let Some(nm) = &n.name { fn_lay.insert(nm.clone(), lay_of(n)); } }
+                            let mut unit_lay: HashMap<String, Lay> = HashMap::new();
+                            for n in &top.nested_functions { if let Some(nm) = &n.name { unit_lay.insert(nm.clone(), lay_of(n)); } }
                             let idx_in = |l: &Lay, n: &str| -> Option<usize> { l.names.iter().position(|x| x == n) };
                             ops.push("OMutability []".into());
                             ops.push(format!("OExecute {}", coq_layout(&ltop, &mut names)));
@@ -367,7 +371,8 @@ mod imp {
                                     Stmt::Let { name, val, .. } => ops.push(format!("OSetIdx {} {}", top_idx(name, &mut problems), zc(code_of_val(val)))),
                                     Stmt::SetLit { name, val } => ops.push(format!("OSetIdx {} {}", top_idx(name, &mut problems), zc(*val))),
                                     Stmt::AddTo { name, k } => ops.push(format!("OAddIdx {} {}", top_idx(name, &mut problems), zc(*k))),
-                                    Stmt::Def { name, def } => ops.push(format!("OSetIdx {} {}", top_idx(name, &mut problems), 2_000_000 + def.tag[1..].parse::<i64>().unwrap_or(0))),
+                                    Stmt::Def { name, def } => { if let Some(l) = unit_lay.get(name) { fn_lay.insert(name.clone(), l.clone()); }
+                                        ops.push(format!("OSetIdx {} {}", top_idx(name, &mut problems), 2_000_000 + def.tag[1..].parse::<i64>().unwrap_or(0))) }
                                     Stmt::PrintVar { name } => ops.push(format!("OPrintIdx {} 0", top_idx(name, &mut problems))),
                                     Stmt::PrintLit { .. } => {}
                                     Stmt::Raw { .. } => { ops.push("OFail".into()); failed = true; }
@@ -399,6 +404,9 @@ mod imp {
                     *kinds.entry(if g.o.fns.get(f).map(|d| d.kind == FnKind::Boom).unwrap_or(false) { "host-call-failing" } else if g.o.fns.contains_key(f) { "host-call-ok" } else { "host-call-undefined" }).or_insert(0) += 1;
                     srcs.push(format!("@{} {} {}\n", if *cached { "cached" } else { "call" }, f, arg));
                     let def = g.o.fns.get(f).cloned();
+                    // entry condition of a host call: an empty frame stack.  When it does not hold the step is still run and
+                    // compared with the reference semantics, but it is not given to the model and the session ends there
+                    stale_entry = vm.verif_frames_len() > 0;
                     r = host_call(&mut vm, f, *arg, *cached);
                     o = g.o.host(f, *arg);
                     if let (Some(d), Some(lf)) = (def, fn_lay.get(f).cloned()) {
@@ -421,17 +429,17 @@ mod imp {
             for v in &vars { ops.push(format!("OReadMap {}", names.id(v))); ob.push(read_map(&vm, v)); }
             ops.push("OFrames".into()); ob.push(r.frames as i64);
             let failed_flag = if class3(&r.class) == "runtime-error" && !ops.is_empty() && ops.iter().any(|x| x == "OFail" || x.starts_with("OHostCall") || x.starts_with("OExecute")) { 1 } else { 0 };
-            q_steps.push(format!("[{}]", ops.join("; ")));
-            obs_steps.push(format!("[{}]", std::iter::once(failed_flag.to_string()).chain(std::iter::once("(-7)".to_string())).chain(ob.iter().map(|x| zc(*x))).collect::<Vec<_>>().join("; ")));
+            if !stale_entry { q_steps.push(format!("[{}]", ops.join("; "))); }
+            if !stale_entry { obs_steps.push(format!("[{}]", std::iter::once(failed_flag.to_string()).chain(std::iter::once("(-7)".to_string())).chain(ob.iter().map(|x| zc(*x))).collect::<Vec<_>>().join("; "))); }
             real_steps.push(format!("{}|{}|{}", class3(&r.class), esc(&r.output), if matches!(step, Step::Host { .. }) { esc(&r.value) } else { String::new() }));
             oracle_steps.push(format!("{}|{}|{}", match o.class { "ok" => "ok", "compile-error" => "compile-error", _ => "runtime-error" }, esc(&o.output), esc(&o.value)));
             let same = real_steps.last() == oracle_steps.last() || (matches!(step, Step::Input { .. }) && class3(&r.class) == "ok" && o.class == "ok" && r.output == o.output);
-            if !same { break; }
+            if !same || stale_entry { break; }
         }
         let mut ks: Vec<String> = kinds.iter().map(|(k, v)| format!("{}={}", k, v)).collect();
         ks.sort();
         CaseOut { query: format!("[{}]", q_steps.join("; ")), observed: format!("[{}]", obs_steps.join("; ")), real_steps: real_steps.join(" ;; "),
-                  oracle_steps: oracle_steps.join(" ;; "), source: srcs.join("=====\n"), problems, kinds: ks.join(",") }
+                  oracle_steps: oracle_steps.join(" ;; "), source: srcs.join("=====\n"), problems, kinds: ks.join(","), stale_entry }
     }
 }
 
@@ -469,7 +477,7 @@ fn main() {
             let case_seed = seed.wrapping_mul(1_000_003).wrapping_add(i);
             let o = if i % 5 == 4 { 0 } else { opt };
             let c = imp::run_case(case_seed, o);
-            println!("CASE\t{}\t{}\t{}\t{}\t{}\t{}\t{}\t{}", case_seed, c.query, c.observed, c.real_steps, c.oracle_steps, esc(&c.source), esc(&c.problems.join(" | ")), c.kinds);
+            println!("CASE\t{}\t{}\t{}\t{}\t{}\t{}\t{}\t{}\t{}", case_seed, c.query, c.observed, c.real_steps, c.oracle_steps, esc(&c.source), esc(&c.problems.join(" | ")), c.kinds, c.stale_entry as u8);
         }
     }).unwrap();
     handle.join().unwrap();
